@@ -232,6 +232,18 @@ def c01(tier, rng):
             ups = " ".join("up=%s:%s" % (rep(65535, 0x6b), rep(65535, 0x76)) for _ in range(15))
             add(PRE + " ; start 0 0 pub q=0 t=74 %s up=%s:%s ; poll 0" % (ups, rep(65535, 0x6b), rep(65521 - 8 + extra, 0x76)),
                 ["publish", "pl2097151"])
+    # a user property whose name and value are each within 65535 bytes but together beyond, in every packet that takes one
+    for kl, vl in ((65535, 1), (1, 65535), (32768, 32768), (65535, 65535)):
+        up = "up=%s:%s" % (rep(kl, 0x6b), rep(vl, 0x76))
+        t_ = ["pair%d+%d" % (kl, vl)]
+        add("connect " + up, ["connect"] + t_)
+        add("connect wt=77 wp=01 w" + up, ["connect", "will"] + t_)
+        add(PRE + " ; start 0 0 pub q=1 t=74 pl=70 %s ; poll 0" % up, ["publish"] + t_)
+        if (kl, vl) != (65535, 65535) or tier == "thorough":
+            add(PRE + " ; start 0 0 sub f=61:2000 %s ; poll 0" % up, ["subscribe"] + t_)
+            add(PRE + " ; start 0 0 unsub f=61 %s ; poll 0" % up, ["unsubscribe"] + t_)
+            add(PRE + " ; start 0 0 disc r=4 %s ; poll 0" % up, ["disconnect"] + t_)
+            add(auth_pre + "auth r=24 am=6d ad=02 " + up, ["auth"] + t_)
     # several packets in submission order under fragmenting writes
     add(PRE + " ; start 0 0 pub q=1 t=61 pl=%s ; start 1 0 sub f=62:1000 ; start 2 0 ping ; hold ; poll 0 ; poll 1 ; poll 2 ; release"
         % rep(700, 9), ["concat"])
@@ -374,6 +386,23 @@ def c02(tier, rng):
         add(sub_prefix() + " ; start 9 0 ping ; poll 9 ; deliver %s ; poll 9 ; pollstream 0" % hx(lead + M.pingresp()), ["tail2", "pingresp"])
         add(sub_prefix() + " ; deliver %s ; pollstream 0" % hx(lead + bytes([0xe0, 0])), ["tail2", "disconnect"])
         add(sub_prefix() + " ; deliver %s ; eof ; pollstream 0" % hx(lead + bytes([0xe0, 0])), ["tail2", "disconnect", "eof"])
+    # user properties are a LIST: a name may repeat with other names in between, and the very same name-value pair may
+    # repeat; every accessor (iteration, get by name, keys, values, len) reports all of them, in order
+    UPL = [[(b"a", b"1"), (b"b", b"2"), (b"a", b"3"), (b"a", b"1")], [(b"k", b"v"), (b"k", b"v")],
+           [(b"x", b""), (b"", b"x"), (b"x", b""), (b"y", b"1"), (b"", b"x")], [(b"n", b"1"), (b"m", b"1"), (b"n", b"2"), (b"m", b"2"), (b"n", b"1")]]
+    for k_, l_ in enumerate(UPL):
+        up = [(38, kv) for kv in l_]
+        t_ = ["upsx"]
+        add("connect ; deliver " + hx(M.connack(0, 0, up)), t_ + ["connack"])
+        add("connect ; deliver " + hx(M.connack(0, 135, up + [(31, b"no")])), t_ + ["connack"])
+        add("connect am=6d ad=01 ; deliver " + hx(M.auth(24, [(21, b"m")] + up)), t_ + ["auth"])
+        add(PRE + " ; start 0 0 pub q=1 t=61 ; poll 0 ; deliver %s ; poll 0" % hx(M.puback(1, 135, up, "long")), t_ + ["puback"])
+        add(PRE + " ; start 0 0 pub q=2 t=61 ; poll 0 ; deliver %s ; poll 0" % hx(M.pubrec(1, 151, up, "long")), t_ + ["pubrec"])
+        add(PRE + " ; start 0 0 pub q=2 t=61 ; poll 0 ; deliver %s ; poll 0 ; deliver %s ; poll 0" % (hx(M.pubrec(1)), hx(M.pubcomp(1, 146, up, "long"))), t_ + ["pubcomp"])
+        add(PRE + " ; start 0 0 sub f=61:2000 ; poll 0 ; deliver %s ; poll 0" % hx(M.suback(1, [1, 128], up)), t_ + ["suback"])
+        add(PRE + " ; start 0 0 unsub f=61 ; poll 0 ; deliver %s ; poll 0" % hx(M.unsuback(1, [17], up)), t_ + ["unsuback"])
+        add(sp + " ; deliver %s ; pollstream 0" % hx(M.publish(b"t", b"x", 1, 5, ps=up[:2] + [(11, 1)] + up[2:])), t_ + ["publish"])
+        add(PRE + " ; deliver " + hx(M.disconnect(139, up, "long")), t_ + ["disconnect"])
     # the same packets arriving in two reads, the first one ending inside the fixed header / the remaining-length field
     # (long packets: a two-byte length), and glued behind another packet with the cut one byte into them
     extra = []
@@ -480,6 +509,22 @@ def c03(tier, rng):
             if total % 4 == 1:
                 add(stream, [(0, 512), (512, len(stream))] if len(stream) > 512 else [(0, len(stream))], ["bufstep", "cut512"],
                     " ; pollstream 0 ; pollstream 0 ; pollstream 0")
+    # a read that brings whole packets and ends 1..5 bytes into the fixed header of a packet whose remaining length takes three
+    # bytes (thorough: also four), the packets before it full of bytes >= 0x80: what lies behind the received bytes in the
+    # receive buffer is never part of a length
+    hi = bytes(0x80 + (i * 37) % 128 for i in range(40))
+    precs = [M.pingresp(), M.puback(0x8081, 151, [(31, "\u00e9\u00e8\u00ea\u00eb".encode())], "long"), M.publish(hi[:2].hex().encode(), hi, ps=[(11, 1)]),
+             M.pingresp() + M.puback(0xffff, 128, (), "long") + M.pingresp(), M.publish(b"t", hi * 20, ps=[(11, 1)])]
+    bigs = [16384, 70000] if tier == "quick" else [16384, 20000, 70000, 2097152 + 5]
+    for pi_, prec in enumerate(precs):
+        for L in bigs:
+            big_ = M.publish(b"t", bytes(0x80 + (i % 120) for i in range(L)), ps=[(11, 1)])
+            stream = prec + big_ + M.pingresp()
+            for k_ in (1, 2, 3, 4, 5):
+                p_ = len(prec) + k_
+                add(stream, [(0, p_), (p_, len(stream))], ["hdrcut"], " ; pollstream 0 ; pollstream 0 ; pollstream 0")
+                if k_ in (3, 4) and len(prec) > 4:
+                    add(stream, [(0, 3), (3, p_), (p_, p_ + 1), (p_ + 1, len(stream))], ["hdrcut", "hdrcut4"], " ; pollstream 0 ; pollstream 0 ; pollstream 0")
     # one poll going through tens of thousands of reads: a large packet whose bytes are all available but handed
     # out by the transport in tiny pieces (the depth of whatever the framing code does per read becomes visible)
     for L, piece in ([(12000, 1), (30000, 3)] if tier == "quick" else [(12000, 1), (30000, 3), (24000, 1), (60000, 2)]):
